@@ -297,6 +297,7 @@ func runC12(c *core.Ctx) {
 	c.Floor("C12/no-shared-append-base", 2)
 	c12ShuffleKeyPerValidator(c)
 	c12OneRemovalPerRequest(c)
+	c12DeduplicatedListIsShuffled(c)
 }
 
 // c12ShuffleKeyPerValidator: shuffleList identifies each validator by the hash of its key and the
@@ -497,4 +498,38 @@ func c12OneRemovalPerRequest(c *core.Ctx) {
 			"after removing a validator the search over the list goes on: one requested entry removes every validator with that key (and more than maxToRemove in all), so a validator is taken out of a list while the bookkeeping still counts it")
 	})
 	c.Floor("C12/one-removal-per-request", 1)
+}
+
+// c12DeduplicatedListIsShuffled: a validator named both in the un-stake leaving list and in the
+// additional leaving list is one leaving validator. UpdateNodeLists removes the repetition
+// (removeDupplicates) and it is that result which reaches shuffleNodes as the additional leaving
+// list - a deduplicated copy used for counting only lets the second request through, and the
+// validator is reported as leaving twice.
+func c12DeduplicatedListIsShuffled(c *core.Ctx) {
+	fn := anchorM(c, "sharding", "randHashShuffler", "UpdateNodeLists")
+	if fn == nil {
+		return
+	}
+	n := 0
+	core.Instrs(fn, func(in ssa.Instruction) {
+		st, ok := in.(*ssa.Store)
+		if !ok {
+			return
+		}
+		fa, ok := st.Addr.(*ssa.FieldAddr)
+		if !ok || core.FieldOfAddr(fa).Name() != "additionalLeaving" {
+			return
+		}
+		n++
+		dedup := false
+		for x := range core.BackwardReachPure(st.Val) {
+			if call, isCall := x.(*ssa.Call); isCall && call.Call.StaticCallee() != nil && call.Call.StaticCallee().Name() == "removeDupplicates" {
+				dedup = true
+			}
+		}
+		c.Check(dedup, "C12/deduplicated-list-is-shuffled", fmt.Sprintf("randHashShuffler.UpdateNodeLists/additionalLeaving#%d", n), st.Pos(),
+			"the additional leaving list handed to shuffleNodes is the result of removeDupplicates",
+			"the additional leaving list handed to shuffleNodes does not come from removeDupplicates: a validator named in both leaving lists is processed twice and reported as leaving twice")
+	})
+	c.Floor("C12/deduplicated-list-is-shuffled", 1)
 }
